@@ -43,9 +43,22 @@ def h_container(cfg):
     ops, sorts = cfg['ops'], cfg['sorts']
     burst = cfg.get('burst') or [0] * len(ops)
     asort = cfg.get('asort', 'int')
-    L = sym_num('L', asort, 0)
     from symx import assume
-    if cfg.get('default_capacity'):
+    grid = None
+    if cfg.get('grid'):
+        # concrete amounts on a grid whose neighbours differ by 1 part in 10^11 (or by 1 at 10^15): level, capacity and every
+        # amount are picked from it by the solver-free choice (exact rationals / big ints, no rounding anywhere)
+        from fractions import Fraction as F
+        eps = F(1, 10 ** 11)
+        grid = {'frac': [F(3, 10), F(3, 10) + eps, F(6, 10), F(6, 10) + eps],
+                'big': [10 ** 15, 10 ** 15 + 1, 2 * 10 ** 15, 2 * 10 ** 15 + 1]}[cfg['grid']]
+        L = grid[choice('L', 2)]
+        C = grid[2 + choice('C', 2)]
+    else:
+        L = sym_num('L', asort, 0)
+    if grid is not None:
+        pass
+    elif cfg.get('default_capacity'):
         C = INF
     else:
         C = sym_num('C', asort, 0, None, True)
@@ -59,7 +72,7 @@ def h_container(cfg):
 
     def do_op(k, op):
         if op in ('put', 'get'):
-            a = sym_num('m%d' % k, asort, 0, None, True)
+            a = grid[choice('m%d' % k, 2)] if grid is not None else sym_num('m%d' % k, asort, 0, None, True)
             ev = c.put(a) if op == 'put' else c.get(a)
             reqs.append({'k': k, 'kind': op, 'ev': ev, 'amount': a, 'cancelled': False, 'granted': False})
         else:
@@ -118,6 +131,17 @@ class FItem:
         return self.truthy
 
 
+class EqItem(FItem):
+    """items that all compare equal to each other yet are distinct objects with distinct contents
+    (like 1 and 1.0, or records compared by one field)"""
+
+    def __eq__(self, other):
+        return isinstance(other, EqItem)
+
+    def __hash__(self):
+        return 7
+
+
 def h_store(cfg):
     from onl.sim import Environment, Store, PriorityStore, FilterStore, PriorityItem
     env = Environment()
@@ -165,8 +189,10 @@ def h_store(cfg):
                 item = PriorityItem(pr, ('it', k))
                 key[id(item)] = pr
             elif kind == 'filter':
-                x = sym_int('x%d' % k)
-                item = FItem(x, not cfg.get('falsy'))   # a distinct object per item (equal values must stay distinguishable)
+                # long runs: keys concrete (k mod 3) except two, thresholds concrete (0 or 1) except two
+                x = (k % 3) if cfg.get('concrete_keys') and k % 8 not in (2, 5) else sym_int('x%d' % k)
+                item = (EqItem(x) if cfg.get('equal_items') else
+                        FItem(x, not cfg.get('falsy')))   # a distinct object per item (equal values must stay distinguishable)
                 key[id(item)] = x
             elif cfg.get('falsy'):
                 item = FItem(k, False)
@@ -177,7 +203,7 @@ def h_store(cfg):
             reqs.append({'k': k, 'kind': 'put', 'ev': ev, 'item': item, 'cancelled': False, 'granted': False})
         elif op == 'get':
             if kind == 'filter':
-                th = sym_int('th%d' % k)
+                th = (k % 2) if cfg.get('concrete_keys') and k % 8 not in (1, 6) else sym_int('th%d' % k)
                 ev = st.get(lambda it, th=th: it.v >= th)
                 twin_op(k, op, th=th)
                 reqs.append({'k': k, 'kind': 'get', 'ev': ev, 'th': th, 'cancelled': False, 'granted': False})
@@ -349,10 +375,23 @@ def jobs(tier, seed):
     # two stores of one class in one environment
     for kind in ('store', 'prio', 'filter'):
         js.append({'harness': 'store', 'weight': 30, 'cfg': {'ops': ['put', 'get', 'put', 'get'], 'sorts': 'int', 'kind': kind, 'twin': True}})
+    # amounts that differ by one part in 10^11 (exact rationals) or by 1 at 10^15: no tolerance anywhere
+    for g in ('frac', 'big'):
+        for ops in (['get', 'put', 'get'], ['put', 'get', 'put']):
+            js.append({'harness': 'container', 'weight': 20, 'cfg': {'ops': ops, 'sorts': 'int', 'grid': g}})
+    # items that compare equal but are different objects (1 and 1.0, records compared by one field)
+    for ops in (['put', 'put', 'get', 'get'], ['put', 'put', 'put', 'get']):
+        js.append({'harness': 'store', 'weight': 30, 'cfg': {'ops': ops, 'sorts': 'int', 'kind': 'filter', 'equal_items': True}})
     # falsy items (0, '', empty containers are items like any other)
     for kind in ('store', 'filter'):
         for ops in (['put', 'get', 'get', 'put'], ['get', 'put', 'put', 'get']):
             js.append({'harness': 'store', 'weight': 30, 'cfg': {'ops': ops, 'sorts': 'int', 'kind': kind, 'falsy': True}})
+    # long runs: eight puts then eight gets (the item list must have grown), and the reverse (eight getters queued)
+    for kind in ('store', 'filter'):
+        for ops in (['put'] * 8 + ['get'] * 8, ['get'] * 8 + ['put'] * 8):
+            js.append({'harness': 'store', 'weight': 200, 'opts': {'max_paths': 5000},
+                       'cfg': {'ops': ops, 'burst': [0] + [1] * 7 + [0] + [1] * 7, 'sorts': 'int', 'kind': kind, 'symcap': False, 'cap': 8,
+                               'concrete_keys': kind == 'filter'}})
     # default (unbounded) capacities
     js.append({'harness': 'container', 'weight': 10, 'cfg': {'ops': ['get', 'put', 'get', 'put'], 'sorts': 'int', 'default_capacity': True}})
     for kind in ('store', 'prio', 'filter'):
